@@ -330,6 +330,30 @@ def inductive(ctx, module, name, control_next, consts, registered=None):
             ctx.fail({"why": "model", "cfg": f"{name} {what}", "inv": "IndInv"}, f"{name} {what}: invariant not inductive", {"cfg": name, "trace": tail})
         ctx.mc.append({"model": f"{name} {what}", "constants": consts, "states": 0, "transitions": 0, "depth": 1, "wall_s": round(wall, 1), "verdict": verdict})
 
+
+def tlapm(module, includes=(), timeout=900):
+    """Run the TLA+ proof system on spec file `module` (relative to SPEC). Returns (obligations, proved, wall, tail)."""
+    mpath = module if os.path.isabs(module) else os.path.join(SPEC, module)
+    if not mpath.endswith(".tla"):
+        mpath += ".tla"
+    cache = os.path.join(OUT, "tlaps", f"{os.getpid()}-{time.time_ns()}")
+    os.makedirs(cache, exist_ok=True)
+    cmd = ["timeout", str(timeout), "tlapm", "--threads", "8", "--cache-dir", cache]
+    for inc in includes:
+        cmd += ["-I", os.path.join(SPEC, inc)]
+    cmd.append(os.path.basename(mpath))
+    t0 = time.time()
+    p = subprocess.run(cmd, cwd=os.path.dirname(mpath), stdout=subprocess.PIPE, stderr=subprocess.STDOUT, text=True)
+    out = p.stdout
+    shutil.rmtree(cache, ignore_errors=True)
+    m = re.search(r"All (\d+) obligations? proved", out)
+    if m:
+        return int(m.group(1)), int(m.group(1)), time.time() - t0, out[-800:]
+    m = re.search(r"(\d+)/(\d+) obligations? failed", out)
+    if m:
+        return int(m.group(2)), int(m.group(2)) - int(m.group(1)), time.time() - t0, out[-2000:]
+    return 0, 0, time.time() - t0, out[-2000:]
+
 # --------------------------------------------------------------------------
 # ndjson helpers
 # --------------------------------------------------------------------------
